@@ -67,18 +67,17 @@ class C11(Property):
                          "general_mode_last_valid_wins", "general_preview_time_last_valid_wins",
                          # [Metadata] as a table (section_eq_table) and what follows from it
                          "metadata_eq_table", "metadata_invalid_value_noop", "metadataTable_frame", "metadata_frame",
-                         "metadata_sets_own_field"]
+                         "metadata_sets_own_field",
+                         # [General] as a table
+                         "general_eq_table", "general_step_cases"]
     partial_theorems = {
         "clamp_within / max_not_before": "proved under two order facts about `<` (irreflexive, asymmetric) taken as hypotheses; they hold for IEEE `<` "
                                         "but Lean's Float is opaque to the kernel, so for the float code they are exercised by the correspondence, not proved",
         "last_valid_wins": "proved generically (last_valid_wins_generic) and instantiated for Title, [General] Mode and PreviewTime; the other fields share the same "
                            "one-step shape but are not each instantiated — they are covered by the differential run against the table-driven oracle",
-        "section_eq_table": "proved for one whole section, [Metadata] (metadata_eq_table: parseMetadata = applyRule ∘ metadataRule ∘ kvSplit for the explicit table "
-                            "metadataTable), with invalid_value_noop and the frame property derived from the table; the other sections have their per-key record theorems "
-                            "(flag_record, mode_record, slider_multiplier_clamped, …) but no single table statement",
-        "general section": "[General] is covered key by key (reject/unknown-key no-ops, five flags, Mode, Countdown, SampleSet, AudioFilename, AudioLeadIn, last-valid-wins "
-                           "for Mode and PreviewTime); SampleVolume, StackLeniency, CountdownOffset, PreviewTime have no dedicated record theorem (same `withI32`/scalarParse "
-                           "shape, compared by the `gen` request of C12's run)",
+        "section_eq_table": "proved for two whole sections: [Metadata] (metadata_eq_table, with invalid_value_noop and the frame property derived from the table) and "
+                            "[General] (general_eq_table: all fourteen keys with their conversions and error kinds). Editor, Difficulty, Events and Colours have per-key record "
+                            "theorems (slider_multiplier_clamped, break_appended, background_overwrites, …) but no single table statement",
     }
     level_text = ("Lean 4 theorems over the model of the record-section parsers (Editor, Metadata, Difficulty, Events, Colours; KeyValue): value = trimmed "
                   "text after the first colon (any further colons kept); rejected record ⇒ state unchanged, unknown key ⇒ accepted no-op; last valid "
@@ -89,7 +88,8 @@ class C11(Property):
                   "is evaluated against the real parsers for the failing-input search. [General] (Props/C11General.lean): rejected ⇒ unchanged, unknown key ⇒ accepted no-op; "
                   "each of the five flags is set to true iff the value parses (i32 within ±(2^31−1)) to exactly 1, to false for every other in-range integer, and an invalid "
                   "value rejects the record; Mode accepts exactly 0..3, Countdown / SampleSet the numbers 0..3 and their four names; AudioFilename only has backslashes turned "
-                  "into slashes; AudioLeadIn is an i32 then converted; last valid Mode / PreviewTime wins. [Metadata] is proved equal to an explicit key ↦ conversion+setter "
+                  "into slashes; AudioLeadIn is an i32 then converted; last valid Mode / PreviewTime wins; the whole section equals an explicit fourteen-row key ↦ conversion+setter table "
+                  "(general_eq_table). [Metadata] is proved equal to an explicit key ↦ conversion+setter "
                   "table (section_eq_table), from which invalid-value no-op and the frame property (a record changes at most its own field) are derived.")
     technique = "Lean 4 proof (decision-logic theorems over the section parser model) + differential correspondence on a key × value-class matrix"
     trusted_base = [
